@@ -550,6 +550,8 @@ class Machine:
         d = md if self.ch.chance("pix_at_maxdepth", 1, 2) or md == 1 else max(1, md - 1 - self.ch.draw("pix_coarser", min(3, md - 1)))
         n = 1 + self.ch.draw("npixels", 12)
         base = self.ch.draw("pix_base", npix(d))
+        if self.ch.chance("pixel_last", 1, 10):
+            base = npix(d) - n        # ... and so do the last pixels of the sphere
         if self.ch.chance("pixel_zero", 1, 5):
             base = 0          # pixel number 0 (falsy, first of its quad) deserves to be met often
             if self.ch.chance("pixel_zero_alone", 1, 2):
